@@ -139,7 +139,7 @@ def judge(ctx, c):
             ctx.ok((method, plc, eff, wclass, hc, c['cls'] if method in ('find', 'rfind') else ''), nontrivial)
         else:
             gv = got[1] if got[0] == 'ok' else type(got[1]).__name__
-            ctx.mismatch(f'C07|{method}|{inputclass}|{_shape(got, exp[0])}', short(c),
+            ctx.mismatch(f'C07|{method}|{inputclass}|{_shape(got, exp[0])}', c,
                          f'{method}: got {got[0]}:{str(gv)[:120]} expected {exp[0]}:{str(exp[1])[:120]}')
 
     with util.options(bytealigned=oba, lsb0=False):
@@ -193,7 +193,7 @@ def judge(ctx, c):
             # class of the pieces is the class of the receiver
             pieces = list(itertools.islice(s.cut(bits, st, en, cnt), 3))
             if any(type(x) is not cls for x in pieces):
-                ctx.mismatch('C07|cut|valid|piece-class', short(c), 'piece of wrong class')
+                ctx.mismatch('C07|cut|valid|piece-class', c, 'piece of wrong class')
         # split
         got = call(lambda: [B(x) for x in s.split(P(), st, en, cnt, ba)])
         if not p or w is None or (cnt is not None and cnt < 0):
@@ -224,7 +224,7 @@ def judge(ctx, c):
                 ic = pclass if pclass != 'valid' else 'tolerance-' + str(ex.zone)
             check('replace', got, exp, ic, hits=len(o) if o is not None else None)
             if got[0] == 'exc' and B(t) != d:
-                ctx.mismatch(f'C07|replace|{ic}|content-changed-after-raise', short(c), '')
+                ctx.mismatch(f'C07|replace|{ic}|content-changed-after-raise', c, '')
     ctx.state(c['cls'], L, len(p), wclass, eff)
 
 
